@@ -15,6 +15,10 @@ let option_map f = function
 | Some a -> Some (f a)
 | None -> None
 
+type ('a, 'b) sum =
+| Inl of 'a
+| Inr of 'b
+
 (** val fst : ('a1 * 'a2) -> 'a1 **)
 
 let fst = function
@@ -7911,9 +7915,10 @@ let rec n0_scan pc ecls not_e pair_end idxs found_e found_not_e =
                                  found_not_e)
 
 (** val n0_nsm :
-    bclass list -> bclass list -> nat list -> bclass -> bclass list res **)
+    bool -> bclass list -> bclass list -> nat list -> bclass -> bclass list
+    res **)
 
-let rec n0_nsm oc pc idxs x =
+let rec n0_nsm legacy oc pc idxs x =
   match idxs with
   | [] -> Ok pc
   | j :: rest ->
@@ -7960,7 +7965,7 @@ let rec n0_nsm oc pc idxs x =
           (S (S (S (S (S (S (S (S (S (S (S (S (S (S
           O)))))))))))))))))))))))))))))))))))))))))))))))))))))))))))))))))))))))))))))))))))))))))))))))))))))))))))))))))))))))))))))))))))))))))))))))))))))))))))))))))))))))))))))))))))))))))))))))))))))))))))))))))))))))))))))))))))))))))))))))))))))))))))))))))))))))))))))))))))))))))))))))))))))))))))))))))))))))))))))))))))))))))))))))))))))))))))))))))))))))))))))))))))))))))))))))))))))))))))))))))))))))))
           pc j) (fun p ->
-        if (||) (ceq o NSM) (ceq p BN)
+        if (||) (ceq o NSM) (if legacy then ceq p BN else removed_by_x9 o)
         then bind
                (upd (S (S (S (S (S (S (S (S (S (S (S (S (S (S (S (S (S (S (S
                  (S (S (S (S (S (S (S (S (S (S (S (S (S (S (S (S (S (S (S (S
@@ -7984,7 +7989,7 @@ let rec n0_nsm oc pc idxs x =
                  (S (S (S (S (S (S (S (S (S (S (S (S (S (S (S (S (S (S (S (S
                  (S (S (S (S (S (S (S (S (S (S (S
                  O))))))))))))))))))))))))))))))))))))))))))))))))))))))))))))))))))))))))))))))))))))))))))))))))))))))))))))))))))))))))))))))))))))))))))))))))))))))))))))))))))))))))))))))))))))))))))))))))))))))))))))))))))))))))))))))))))))))))))))))))))))))))))))))))))))))))))))))))))))))))))))))))))))))))))))))))))))))))))))))))))))))))))))))))))))))))))))))))))))))))))))))))))))))))))))))))))))))))))))))))))))))))))
-                 pc j x) (fun pc' -> n0_nsm oc pc' rest x)
+                 pc j x) (fun pc' -> n0_nsm legacy oc pc' rest x)
         else Ok pc))
 
 (** val first_char_len : enc -> nat -> n list -> nat res **)
@@ -7995,11 +8000,11 @@ let first_char_len e site sub0 =
   | c :: _ -> Ok (char_len e c)
 
 (** val n0_pair :
-    enc -> (run list -> nat -> nat -> nat list res) -> n list -> irs ->
-    bclass list -> bclass -> bclass -> bclass list -> bracket_pair -> bclass
-    list res **)
+    enc -> bool -> (run list -> nat -> nat -> nat list res) -> n list -> irs
+    -> bclass list -> bclass -> bclass -> bclass list -> bracket_pair ->
+    bclass list res **)
 
-let n0_pair e backwards text sq oc ecls not_e pc pair =
+let n0_pair e legacy backwards text sq oc ecls not_e pc pair =
   let runs = sq.irs_runs in
   bind
     (t_subrange (S (S (S (S (S (S (S (S (S (S (S (S (S (S (S (S (S (S (S (S
@@ -8222,24 +8227,24 @@ let n0_pair e backwards text sq oc ecls not_e pc pair =
                             (iter_forwards_from runs
                               (add pair.bp_start start_char_len)
                               pair.bp_start_run) (fun fw1 ->
-                            bind (n0_nsm oc pc2 fw1 cts) (fun pc3 ->
+                            bind (n0_nsm legacy oc pc2 fw1 cts) (fun pc3 ->
                               bind
                                 (iter_forwards_from runs
                                   (add pair.bp_end end_char_len)
                                   pair.bp_end_run) (fun fw2 ->
-                                n0_nsm oc pc3 fw2 cts)))))))))
+                                n0_nsm legacy oc pc3 fw2 cts)))))))))
             | None -> Ok pc)))))
 
 (** val n0_pairs :
-    enc -> (run list -> nat -> nat -> nat list res) -> n list -> irs ->
-    bclass list -> bclass -> bclass -> bclass list -> bracket_pair list ->
+    enc -> bool -> (run list -> nat -> nat -> nat list res) -> n list -> irs
+    -> bclass list -> bclass -> bclass -> bclass list -> bracket_pair list ->
     bclass list res **)
 
-let rec n0_pairs e backwards text sq oc ecls not_e pc = function
+let rec n0_pairs e legacy backwards text sq oc ecls not_e pc = function
 | [] -> Ok pc
 | p :: rest ->
-  bind (n0_pair e backwards text sq oc ecls not_e pc p) (fun pc' ->
-    n0_pairs e backwards text sq oc ecls not_e pc' rest)
+  bind (n0_pair e legacy backwards text sq oc ecls not_e pc p) (fun pc' ->
+    n0_pairs e legacy backwards text sq oc ecls not_e pc' rest)
 
 (** val ni_consume :
     bclass list -> nat list -> nat list -> nat -> (((nat list * nat) * bclass
@@ -8654,13 +8659,20 @@ let resolve_neutral_gen e ds legacy text sq levels oc pc =
       bind (identify_bracket_pairs_gen e ds legacy text sq oc pc)
         (fun pairs ->
         bind
-          (n0_pairs e
+          (n0_pairs e legacy
             (if legacy
              then iter_backwards_from_legacy
              else iter_backwards_from) text sq oc ecls not_e pc pairs)
           (fun pc0 ->
           let idxs = flat_map run_range sq.irs_runs in
           n12_loop (S (length idxs)) sq ecls pc0 idxs sq.irs_sos)))
+
+(** val resolve_neutral :
+    enc -> datasource -> n list -> irs -> nat list -> bclass list -> bclass
+    list -> bclass list res **)
+
+let resolve_neutral e ds =
+  resolve_neutral_gen e ds false
 
 (** val resolve_levels : bclass list -> nat list -> nat list res **)
 
@@ -12868,11 +12880,10 @@ let seq_eos cls0 xlev pl idx sq =
   dir_of_level (Nat.max (lev_at xlev pl last_) succ0)
 
 (** val resolve_classes :
-    bclass -> bclass -> bclass -> (n * bool) option list -> bclass list ->
-    bclass list **)
+    bclass -> bclass -> bclass -> (n * bool) option list -> bool list ->
+    bclass list -> bclass list **)
 
-let resolve_classes sos eos edir brks t0 =
-  let orig_nsm = map (fun c -> ceq c NSM) t0 in
+let resolve_classes sos eos edir brks orig_nsm t0 =
   let t1 = weak sos t0 in
   let pairs = bracket_pairs t1 brks in
   let t2 = fold_left (n0_one sos edir orig_nsm) pairs t1 in
@@ -12888,6 +12899,7 @@ let resolve_sequence cls0 cls brk xlev pl idx sq =
   let edir = dir_of_level (lev_at xlev pl (first_of sq)) in
   let t3 =
     resolve_classes sos eos edir (map (fun i -> snth brk i None) sq)
+      (map (fun i -> ceq (snth cls0 i ON) NSM) sq)
       (map (fun i -> snth cls i ON) sq)
   in
   map (fun ic -> ((fst ic),
@@ -12899,13 +12911,21 @@ let rec assoc_nat k = function
 | [] -> None
 | p :: r -> let (a, b) = p in if Nat.eqb a k then Some b else assoc_nat k r
 
+(** val x_classes : bclass list -> bclass list -> bclass list **)
+
+let x_classes cls0 xcls =
+  map (fun p -> match fst p with
+                | FSI -> snd p
+                | x -> x) (combine xcls (reported_classes cls0))
+
 (** val resolve_paragraph :
     bclass list -> (n * bool) option list -> nat option -> nat * nat option
     list **)
 
 let resolve_paragraph cls0 brk dir =
   let pl = para_level cls0 dir in
-  let (xlev, cls) = explicit_levels cls0 pl in
+  let (xlev, xcls) = explicit_levels cls0 pl in
+  let cls = x_classes cls0 xcls in
   let idx = remaining cls0 in
   let seqs = isolating_sequences cls0 xlev in
   let assigned = flat_map (resolve_sequence cls0 cls brk xlev pl idx) seqs in
@@ -13452,15 +13472,15 @@ let l1_expected c stored pl = function
      let lens = map snd lch in
      let cls = map (fun ch -> c.tc_ds.ds_class (fst ch)) lch in
      let seg = firstn (sub b a) (skipn a stored) in
-     let at_ = at_starts lens seg in
+     let at_0 = at_starts lens seg in
      if forallb (fun x -> match x with
                           | Some _ -> true
-                          | None -> false) at_
+                          | None -> false) at_0
      then let per_char =
             l1 pl cls
               (map (fun x -> match x with
                              | Some l -> l
-                             | None -> O) at_)
+                             | None -> O) at_0)
           in
           Some
           (app (firstn a stored)
@@ -14211,3 +14231,253 @@ let lI_check c =
        (match para_bidi_info_new U32 c.tc_ds cps c.tc_dir with
         | Ok _ -> false
         | Panic _ -> true))
+
+(** val seq_idx : irs -> nat list **)
+
+let seq_idx sq =
+  flat_map run_range sq.irs_runs
+
+(** val live : bclass list -> nat -> bool **)
+
+let live oc i =
+  not_removed_by_x9 (nth i oc BN)
+
+(** val live_idx : bclass list -> irs -> nat list **)
+
+let live_idx oc sq =
+  filter (live oc) (seq_idx sq)
+
+(** val at_ : 'a1 -> 'a1 list -> nat list -> 'a1 list **)
+
+let at_ d v l =
+  map (fun i -> nth i v d) l
+
+(** val transparent_from : bclass list -> bclass list -> nat list -> bool **)
+
+let rec transparent_from oc v = function
+| [] -> true
+| j :: r ->
+  (&&)
+    (if live oc j
+     then true
+     else let c = nth j v BN in
+          (||) ((||) (ceq c BN) (ceq c ON))
+            (match find (live oc) r with
+             | Some j' -> ceq (nth j' v BN) c
+             | None -> false)) (transparent_from oc v r)
+
+(** val transparent : bclass list -> bclass list -> irs -> bool **)
+
+let transparent oc v sq =
+  transparent_from oc v (seq_idx sq)
+
+(** val bn_exact : bclass list -> bclass list -> irs -> bool **)
+
+let bn_exact oc pc sq =
+  forallb (fun i -> eqb (ceq (nth i pc BN) BN) (negb (live oc i)))
+    (seq_idx sq)
+
+(** val sq_weak_spec : bclass list -> bclass list -> irs -> bclass list **)
+
+let sq_weak_spec oc pc sq =
+  weak sq.irs_sos (at_ BN pc (live_idx oc sq))
+
+(** val sq_ecls : nat list -> irs -> bclass **)
+
+let sq_ecls lv sq =
+  level_class (nth (match sq.irs_runs with
+                    | [] -> O
+                    | r0 :: _ -> fst r0) lv O)
+
+(** val sq_neutral_spec :
+    datasource -> n list -> bclass list -> nat list -> bclass list -> irs ->
+    bclass list **)
+
+let sq_neutral_spec ds cps oc lv pc1 sq =
+  let li = live_idx oc sq in
+  let t1 = at_ BN pc1 li in
+  let brks = map (fun i -> ds.ds_bracket (nth i cps N0)) li in
+  let onsm = map (fun i -> ceq (nth i oc BN) NSM) li in
+  let ecls = sq_ecls lv sq in
+  neutral sq.irs_sos sq.irs_eos ecls
+    (fold_left (n0_one sq.irs_sos ecls onsm) (bracket_pairs t1 brks) t1)
+
+(** val nonempty : 'a1 list -> bool **)
+
+let nonempty = function
+| [] -> false
+| _ :: _ -> true
+
+(** val runs_live : bclass list -> run list -> nat list list **)
+
+let runs_live oc runs =
+  filter nonempty (map (fun r -> filter (live oc) (run_range r)) runs)
+
+(** val nat_ll_eqb : nat list list -> nat list list -> bool **)
+
+let nat_ll_eqb =
+  list_eqb (list_eqb Nat.eqb)
+
+(** val runs_bd7 :
+    bclass list -> nat option list -> bclass list -> nat list -> run list ->
+    bool **)
+
+let runs_bd7 cls0 xlev oc lv runs =
+  (&&) (nat_ll_eqb (runs_live oc runs) (level_runs xlev (remaining cls0)))
+    (forallb (fun r ->
+      forallb (fun i ->
+        match nth i xlev None with
+        | Some l -> Nat.eqb l (nth (fst r) lv O)
+        | None -> false) (filter (live oc) (run_range r))) runs)
+
+type seq3 = (nat list * bclass) * bclass
+
+(** val seq3_eqb : seq3 -> seq3 -> bool **)
+
+let seq3_eqb a b =
+  (&&)
+    ((&&) (list_eqb Nat.eqb (fst (fst a)) (fst (fst b)))
+      (ceq (snd (fst a)) (snd (fst b)))) (ceq (snd a) (snd b))
+
+(** val insert_seq3 : seq3 -> seq3 list -> seq3 list **)
+
+let rec insert_seq3 x l = match l with
+| [] -> x :: []
+| y :: r ->
+  if Nat.ltb (hd O (fst (fst x))) (hd O (fst (fst y)))
+  then x :: l
+  else y :: (insert_seq3 x r)
+
+(** val sort_seq3 : seq3 list -> seq3 list **)
+
+let sort_seq3 l =
+  fold_left (fun acc x -> insert_seq3 x acc) l []
+
+(** val model_seq3 : bclass list -> irs list -> seq3 list **)
+
+let model_seq3 oc seqs =
+  filter (fun t -> nonempty (fst (fst t)))
+    (map (fun sq -> (((live_idx oc sq), sq.irs_sos), sq.irs_eos)) seqs)
+
+(** val spec_seq3 : bclass list -> nat option list -> nat -> seq3 list **)
+
+let spec_seq3 cls0 xlev pl =
+  let idx = remaining cls0 in
+  map (fun s -> ((s, (seq_sos xlev pl idx s)), (seq_eos cls0 xlev pl idx s)))
+    (isolating_sequences cls0 xlev)
+
+(** val map2_implicit : nat list -> bclass list -> nat list **)
+
+let rec map2_implicit lv pc =
+  match lv with
+  | [] -> []
+  | l :: lr ->
+    (match pc with
+     | [] -> []
+     | c :: cr -> (implicit_level l c) :: (map2_implicit lr cr))
+
+(** val stage_check_seqs :
+    datasource -> n list -> bclass list -> nat list -> bclass list -> irs
+    list -> (nat, bclass list) sum **)
+
+let rec stage_check_seqs ds cps oc lv pc = function
+| [] -> Inr pc
+| sq :: rest ->
+  if negb (bn_exact oc pc sq)
+  then Inl (S (S (S (S (S (S (S (S (S (S O))))))))))
+  else (match resolve_weak U32 cps sq pc with
+        | Ok pc1 ->
+          if negb
+               (cls_list_eqb (at_ BN pc1 (live_idx oc sq))
+                 (sq_weak_spec oc pc sq))
+          then Inl (S (S (S (S (S (S (S (S (S (S (S (S O))))))))))))
+          else if negb (transparent oc pc1 sq)
+               then Inl (S (S (S (S (S (S (S (S (S (S (S (S (S O)))))))))))))
+               else (match resolve_neutral U32 ds cps sq lv oc pc1 with
+                     | Ok pc2 ->
+                       if negb
+                            (cls_list_eqb (at_ BN pc2 (live_idx oc sq))
+                              (sq_neutral_spec ds cps oc lv pc1 sq))
+                       then Inl (S (S (S (S (S (S (S (S (S (S (S (S (S (S (S
+                              O)))))))))))))))
+                       else stage_check_seqs ds cps oc lv pc2 rest
+                     | Panic _ ->
+                       Inl (S (S (S (S (S (S (S (S (S (S (S (S (S (S
+                         O)))))))))))))))
+        | Panic _ -> Inl (S (S (S (S (S (S (S (S (S (S (S O))))))))))))
+
+(** val stage_check_para : datasource -> n list -> nat option -> nat **)
+
+let stage_check_para ds cps dir =
+  let cls0 = map ds.ds_class cps in
+  let brk = map ds.ds_bracket cps in
+  let k = length cps in
+  let pl = para_level cls0 dir in
+  let oc = reported_classes cls0 in
+  let (xlev, _) = explicit_levels cls0 pl in
+  (match explicit_compute U32 cps pl oc (repeat pl k) oc with
+   | Ok a ->
+     let (p, runs) = a in
+     let (lv, pc0) = p in
+     if negb (runs_bd7 cls0 xlev oc lv runs)
+     then S (S O)
+     else let check_with = fun has_iso ->
+            match isolating_run_sequences pl oc lv runs has_iso with
+            | Ok seqs ->
+              if negb
+                   (list_eqb seq3_eqb (sort_seq3 (model_seq3 oc seqs))
+                     (sort_seq3 (spec_seq3 cls0 xlev pl)))
+              then S (S (S (S O)))
+              else (match stage_check_seqs ds cps oc lv pc0 seqs with
+                    | Inl n0 -> n0
+                    | Inr pc ->
+                      (match resolve_levels pc lv with
+                       | Ok lv2 ->
+                         if negb (nat_list_eqb lv2 (map2_implicit lv pc))
+                         then S (S (S (S (S (S (S (S (S (S (S (S (S (S (S (S
+                                (S (S (S (S (S O))))))))))))))))))))
+                         else (match assign_levels_to_removed_chars pl oc lv2 with
+                               | Ok lv3 ->
+                                 if nat_list_eqb lv3
+                                      (fill_removed pl
+                                        (snd (resolve_paragraph cls0 brk dir)))
+                                 then O
+                                 else S (S (S (S (S (S (S (S (S (S (S (S (S
+                                        (S (S (S (S (S (S (S (S (S (S
+                                        O))))))))))))))))))))))
+                               | Panic _ ->
+                                 S (S (S (S (S (S (S (S (S (S (S (S (S (S (S
+                                   (S (S (S (S (S (S (S O))))))))))))))))))))))
+                       | Panic _ ->
+                         S (S (S (S (S (S (S (S (S (S (S (S (S (S (S (S (S (S
+                           (S (S O)))))))))))))))))))))
+            | Panic _ -> S (S (S O))
+          in
+          (match check_with true with
+           | O ->
+             if existsb is_isolate_init oc
+             then O
+             else (match check_with false with
+                   | O -> O
+                   | S n0 ->
+                     add (S (S (S (S (S (S (S (S (S (S (S (S (S (S (S (S (S
+                       (S (S (S (S (S (S (S (S (S (S (S (S (S (S (S (S (S (S
+                       (S (S (S (S (S (S (S (S (S (S (S (S (S (S (S (S (S (S
+                       (S (S (S (S (S (S (S (S (S (S (S (S (S (S (S (S (S (S
+                       (S (S (S (S (S (S (S (S (S (S (S (S (S (S (S (S (S (S
+                       (S (S (S (S (S (S (S (S (S (S (S
+                       O))))))))))))))))))))))))))))))))))))))))))))))))))))))))))))))))))))))))))))))))))))))))))))))))))))
+                       (S n0))
+           | S n0 -> S n0)
+   | Panic _ -> S O)
+
+(** val stage_check : tcase -> nat **)
+
+let stage_check c =
+  let paras =
+    split_paragraphs (fun ch -> c.tc_ds.ds_class (fst ch)) (case_chars c)
+  in
+  fold_left (fun acc p ->
+    match acc with
+    | O -> stage_check_para c.tc_ds (map fst p) c.tc_dir
+    | S _ -> acc) paras O
